@@ -62,11 +62,26 @@ CHECKS = {
          "Trusted: the cooperative scheduler (exactly one thread runs; replay of a recorded schedule is checked to be deterministic), mprotect + debug.SetPanicOnFault. Not modelled: weak memory behaviours; interleavings inside one operator phase over package-level state (only the supplementary passes see those).", "DESIGN.md §3 (row C17)"),
 }
 NA_REASON = "check not built yet in this session (see DESIGN.md §7 order of construction); decidable by bounded exhaustive exploration, to be claimed once its explorer exists"
+E1EXTRA = " Every case is also run with the attribute list reversed and with every defaultable attribute spelled out with its default; on operator instances that already served another request (all ordered pairs in small groups, one predecessor per class otherwise) and with the caller's tensor objects refilled in place between two requests. The space further contains larger tensors with odd element counts (up to 65 539 and beyond), extreme integers (+-2^63, +-2^31, ...) wherever an integer is accepted, special values also as single-element operands, and a watchdog turns a call that never returns into a violation."
+ADDENDA = {
+ "C01": " Every depth <= 1 program additionally runs with symbolic / shape-less input declarations, with the initializer and a graph input declared as graph outputs, with value_info entries, with one output name too many, with a duplicated output declaration and with the caller's map carrying tensors under intermediate names; further: rank-0 graph inputs, 7 value-naming schemes x 4 list orders, a 600-node chain and 18 twin-node pairs differing in one attribute of each kind.",
+ "C02": " (As built now: 400+ subjects incl. nodes whose inputs all name one tensor; depth 4 quick / 5 thorough; the alphabet additionally contains: the caller overwriting A in place, the caller overwriting the tensors a Run returned, calls that fail inside an operator (models declare symbolic dims; every tensor x axis one longer), and loading + running a second model with other weights.)",
+ "C13": " (As built now: 780 signatures with 5 kinds of dimension incl. an empty dim_param, supplied ranks 0..5/6, all call histories of length <= 3/4 over 11 feeds on one Model, initializer-backed inputs declared dynamic, shared symbolic names, and scribbling on what the accessors return.)",
+ "C14": " (As built now: extents 1..4 on ranks 0..4 in quick, 1..5 thorough, ranks 5-6 against low ranks, all pairs of 11 larger shapes, and a second request on the same source objects refilled in place.)",
+ "C15": " (As built now: Go-native int/uint tensors as never-allowed types, lists with spare capacity, gate histories on one operator object, and the gate as applied by Model.Run for every operator and count.)",
+ "C16": " (As built now: ~150 models incl. LSTM peepholes, per-head MatMul weights, full-size convolution kernels and models with samples 150x / 1e7x larger and of opposite sign; pool 4 / length 4 quick, 5 / 5 thorough.)",
+ "C17": " (As built now: 400+ frozen subjects incl. a batch-1 feed, 127 exploration subjects whose second thread first makes a call that fails inside an operator, a global-state pass in a fresh process over all package-level symbols one level deep, cold-start processes, and a scheduler that tolerates threads blocked on the library's own locks.)",
+ "C18": " Unsupported operators are also placed off the path to the outputs and combined with caller-supplied entries for node outputs; the three loaders (bytes, file, zip stored/deflated) must agree on models up to 1 MiB.",
+ "C12": " Further: payloads up to 65 541 elements, dims whose product wraps to the payload length, negative data_type codes, a short typed field topped up by a stray second field, several initializers with identical bytes but different dims in one model, and the file / zip loaders as observation points.",
+}
 def main():
     checks = []
     for p in ALL:
         if p not in CHECKS: continue
         level, engine, tech, text, note, ref = CHECKS[p]
+        if p in ("C03","C04","C05","C06","C07","C08","C09","C10","C11"):
+            text += E1EXTRA
+        text += ADDENDA.get(p, "")
         checks.append({
             "property_id": p,
             "quick_cmd": f"./run.sh {p} quick",
